@@ -674,3 +674,41 @@ Proof. reflexivity. Qed.
 Lemma nested_order s e s1 b :
   neval s e = (s1, Ok b) -> neval s (NArg e) = split_res s1 (rnd_fn s1 (Some (VSng b))).
 Proof. intros H. cbn [neval]. rewrite H. reflexivity. Qed.
+
+(* ------------------------------------------------------------------ *)
+(* RND(0) after ANY operation (in particular straight after RANDOMIZE with any argument): the stored seed is
+   a reduced 24-bit seed, RND(0) returns exactly seed/2^24 in [0,1), and the next RND is one step further *)
+
+Lemma randomize_numeric s v : v <> VStr ->
+  randomize_fn s v = Ok (reseed s (value_bytes v)) /\ in_range (reseed s (value_bytes v)).
+Proof.
+  intros Hv. split.
+  - destruct v; try reflexivity. congruence.
+  - unfold reseed. apply reseed_tail_range.
+Qed.
+
+Lemma rnd0_after_history ops v f :
+  to_single v = Ok f -> sng_is_zero f = true ->
+  let s := exec seed0 ops in
+  in_range s /\
+  rnd_fn s (Some v) = Ok (s, rnd_bytes s) /\
+  (sng_valQ (rnd_bytes s) == s # 16777216)%Q /\
+  (0 <= sng_valQ (rnd_bytes s))%Q /\ (sng_valQ (rnd_bytes s) < 1)%Q /\
+  rnd_fn s None = Ok (rnd_cycle s, rnd_bytes (rnd_cycle s)).
+Proof.
+  intros Hf Hz s. pose proof (exec_range ops seed0 seed0_range) as Hr. fold s in Hr.
+  destruct (rnd_bytes_valQ s Hr) as (E & L & U).
+  split; [exact Hr|]. split; [exact (rnd_zero_repeats s v f Hf Hz)|].
+  split; [exact E|]. split; [exact L|]. split; [exact U|]. reflexivity.
+Qed.
+
+Lemma exec_app a : forall s b, exec s (a ++ b) = exec (exec s a) b.
+Proof. induction a as [|o r IH]; intros s b; cbn [app exec]; [reflexivity | apply IH]. Qed.
+
+(* the seed RANDOMIZE stores is exactly the reduced reseed value, whatever came before *)
+Lemma exec_randomize ops v : v <> VStr ->
+  exec seed0 (ops ++ [ORandomize v]) = reseed (exec seed0 ops) (value_bytes v).
+Proof.
+  intros Hv. rewrite exec_app. cbn [exec step].
+  destruct (randomize_numeric (exec seed0 ops) v Hv) as [E _]. rewrite E. reflexivity.
+Qed.
